@@ -1408,6 +1408,9 @@ func main() {
 		"every single-field deviation (+ random multi-field); block ids: real Block.BlockHash and BlocksChunkReceiver on genuine/altered/missing/"+
 		"duplicated/oversized blocks. non-trivial = read reached the header, write decided, handshake accepted or single-field case, receiver delivered")
 	defer run.Finish()
+	// vh seeds the splitmix state with seed*gamma+c and steps it by gamma, so seeds k and k+1 produce the same sequence
+	// shifted by one draw; forking once makes the per-seed streams unrelated (still a function of -seed only)
+	run.Rng = run.Rng.Fork()
 	framing(run)
 	handshake(run)
 	blockid(run)
